@@ -127,6 +127,7 @@ func cmdCheck(args []string) int {
 	only := fs.String("only", "", "only functions matching")
 	keep := fs.Bool("keep", false, "keep SMT files of failing obligations in .work")
 	verbose := fs.Bool("v", false, "verbose")
+	dump := fs.String("dump", "", "write the SMT scripts of checks whose name matches to .work")
 	if len(args) < 1 {
 		usage()
 	}
@@ -193,6 +194,17 @@ func cmdCheck(args []string) int {
 	if opts.thorough {
 		opts.timeoutMs = 30000
 		opts.jobs = runtime.NumCPU() / 2
+	}
+	if *dump != "" {
+		re := regexp.MustCompile(*dump)
+		os.MkdirAll(filepath.Join(verifDir, ".work"), 0o755)
+		n := 0
+		for _, c := range x.checks {
+			if re.MatchString(c.Name) {
+				n++
+				os.WriteFile(filepath.Join(verifDir, ".work", fmt.Sprintf("dump_%s_%d.smt2", sanitize(c.Name), n)), []byte(c.Script(10000, false)), 0o644)
+			}
+		}
 	}
 	obls, covers, stats := discharge(x.checks, opts)
 	solveSecs := time.Since(t0).Seconds() - loadSecs - genSecs
@@ -348,7 +360,7 @@ func cmdCheck(args []string) int {
 				for _, tr := range in.Tried {
 					t += tr.Secs
 				}
-				sl = append(sl, slow{ob.Name, t, in.Result.Status})
+				sl = append(sl, slow{ob.Name, t, in.Result.Status + " by " + in.Result.Solver})
 			}
 		}
 		for n, l := range covers {
